@@ -254,10 +254,14 @@ fn cfi_regs(cpu: &str) -> (&'static str, &'static str, &'static [&'static str]) 
     }
 }
 
-fn cfi_rules(rng: &mut Rng, cpu: &str) -> String {
+fn cfi_rules(rng: &mut Rng, cpu: &str, inmod: u64) -> String {
     let (sp, fp, saved) = cfi_regs(cpu);
     let w = ptr_width(cpu);
     let hostile: &[&str] = &[
+        ".cfa: {sp} 1 + .ra: {inmod}",
+        ".cfa: {sp} 1 + .ra: {inmod}",
+        ".cfa: {sp} {w} + .ra: {inmod}",
+        ".cfa: {sp} 1 + .ra: {inmod} {fp}: {inmod}",
         ".cfa: {sp} 1 + .ra: 4096",
         ".cfa: {sp} 0 + .ra: .cfa",
         ".cfa: {sp} .ra: 1073745924",
@@ -281,7 +285,7 @@ fn cfi_rules(rng: &mut Rng, cpu: &str) -> String {
     ];
     if rng.chance(1, 3) {
         let t = *rng.pick(hostile);
-        return t.replace("{sp}", sp).replace("{fp}", fp);
+        return t.replace("{sp}", sp).replace("{fp}", fp).replace("{inmod}", &inmod.to_string()).replace("{w}", &w.to_string());
     }
     let frame = *rng.pick(&[w as u64, 2 * w as u64, 16, 24, 32, 48, 64, 128, 1, 0, 4096]);
     let mut s = format!(".cfa: {sp} {frame} + .ra: .cfa {w} - ^");
@@ -348,7 +352,9 @@ fn func_name(rng: &mut Rng, i: usize) -> String {
 }
 
 /// Symbol-file text for a module of `size` bytes (addresses are module relative).
-pub fn gen_symbols(rng: &mut Rng, cpu: &str, os: &str, name: &str, size: u32, feat: u32) -> Vec<u8> {
+pub fn gen_symbols(rng: &mut Rng, cpu: &str, os: &str, name: &str, base: u64, size: u32, feat: u32) -> Vec<u8> {
+    // an absolute address inside this module (for rules that return to a constant)
+    let inmod = base.wrapping_add((size as u64 / 2).min(0x1004));
     let mut s = String::new();
     let osname = match os {
         "windows" => "windows",
@@ -403,10 +409,10 @@ pub fn gen_symbols(rng: &mut Rng, cpu: &str, os: &str, name: &str, size: u32, fe
         let n = rng.range(1, 3);
         for i in 0..n {
             let (a, l) = if i == 0 { (0, span.max(size).min(0xffffffff)) } else { (rng.below(span), rng.range(1, 0x100)) };
-            s.push_str(&format!("STACK CFI INIT {a:x} {l:x} {}\n", cfi_rules(rng, cpu)));
+            s.push_str(&format!("STACK CFI INIT {a:x} {l:x} {}\n", cfi_rules(rng, cpu, inmod)));
             for _ in 0..rng.below(3) {
                 let d = a + rng.below(l.min(0x100));
-                s.push_str(&format!("STACK CFI {d:x} {}\n", cfi_rules(rng, cpu)));
+                s.push_str(&format!("STACK CFI {d:x} {}\n", cfi_rules(rng, cpu, inmod)));
             }
         }
     }
@@ -741,7 +747,7 @@ pub fn build(seed: u64, cpu: &str, os: &str, feat: u32) -> Option<Built> {
         }
         dump = dump.add(name).add_module(module);
         if feat & (F_SYM_FUNC | F_SYM_CFI | F_SYM_WIN | F_SYM_CORRUPT) != 0 && !rng.chance(1, 6) {
-            syms.insert(m.name.clone(), gen_symbols(rng, cpu, os, &m.name, m.size, feat));
+            syms.insert(m.name.clone(), gen_symbols(rng, cpu, os, &m.name, m.base, m.size, feat));
         }
     }
     rng_store = sub(6);
